@@ -136,5 +136,19 @@ PROPS["C18"] = {
     "trusted_base": _SYS_TRUSTED,
 }
 
+PROPS["C20"] = {
+    "suites": [{"name": "sched", "stateful": True, "quick": 600, "thorough": 10000, "thorough_seeds": 3},
+               {"name": "sched", "race": True, "stateful": True, "quick": 100, "thorough": 3000, "thorough_seeds": 3},
+               {"name": "race", "race": True, "quick": 300, "thorough": 6000, "thorough_seeds": 5}],
+    "trip_re": "race_report|wrong_body_for_key|blocked",
+    "rule": _SCHED_RULE + " race: the harness built with -race; 8 workers x n requests on 8 hot and 200 cold keys (cache size 64, lifetime 1 s real "
+            "clock, every 5th upstream answer uncacheable), GET/HEAD, Accept-Encoding and If-None-Match variety, with a concurrent loop of purges and "
+            "location/server reloads; every body names the key it was produced for; any report of the Go race detector, wrong body, malformed "
+            "response or panic trips. non-trivial = schedule events / the summary line.",
+    "assumptions": ["the syntactic lock scopes extracted from the source are the dynamic ones (trusted part of the extractor)",
+                    "mutex and channel semantics of the Go runtime (Race.WF, happens-before edges)"],
+    "trusted_base": _SYS_TRUSTED + ["go race detector (thorough search for a failing schedule, not a proof)", "elton, net/http, sync.Map, go.uber.org/atomic"],
+}
+
 NOT_APPLICABLE = {}
 HOOK_COMMITS = ["ca43a57", "6332ff2"]
